@@ -134,9 +134,12 @@ def wrapper_stage(ctx):
             involved = set()
             for out, _sz in seen:
                 names, one = out
-                if isinstance(names, list):
-                    involved |= set(names)
-                if isinstance(one, (list, tuple)):
+                if isinstance(names, (list, tuple)):
+                    involved |= set(str(x).split(':')[0] for x in names)
+                if isinstance(one, (list, tuple)) and one and one[0] == 'expected':
+                    involved.add(one[1])
+                    one = one[2]
+                if isinstance(one, (list, tuple)) and one:
                     involved.add(one[0])
             sig = {'kind': 'wrapper-agreement',
                    'errored_involved': bool(involved & set(errored)),
